@@ -302,7 +302,7 @@ BROAD = ["x = 2d6; x + 1", "&cv = 2d6 + 1; cv", "&cv = 2d6 + 1; cv + cv", "func 
          "力量 = 2d6; 力量 * 2", "x = 3; x d6", "1.5 + 2d6", "2d6 / 0", "2d6 ** 2", "2d6 % 4", "2d6 > 3 ? 1 : 0", "if 2d6 > 3 { 1 } else { 2 }",
          "i = 0; while i < 3 { i = i + d2 }; i", "[x,2]\n[x,2]", "5\n{'a':1", "5\n'abc", "x=1; x || [", "x=[1,2]\ny=3\ny", "this.x = 5", "&a = d; a",
          "力量\n2d6", "2d6\n3d6", "2d6;3d6", "str(2d6)", "int('3') + d6", "x = 'a'; x * 3", "val ?? 2d6", "null ?? f", "b + p + f + 3a8 + 2c8",
-         "dk", "d k", "2d6k", "(1)＋2", "d6　", "　d6", "　", "2d6  ", "`x`", "`{'[' + 'a'}`", "'[' + ']'", "']' + 2d6", "'[a' ; 2d6",
+         "dk", "d k", "2d6k", "x", "x", "m", "敏捷", "val + 1", "arr", "y", "(1)＋2", "d6　", "　d6", "　", "2d6  ", "`x`", "`{'[' + 'a'}`", "'[' + ']'", "']' + 2d6", "'[a' ; 2d6",
          "x = '[略]'; x + 'y'", "[[1,2],[3]]", "[[2d6]]", "{}", "[]", "d6 ] ", "a10", "1a", "3c", "f1", "bb", "^st力量60", "^st 力量=2d6 敏捷=3"]
 
 
@@ -310,7 +310,8 @@ def broad_inputs(rnd, n):
     out = []
     for i in range(n):
         k = rnd.randrange(10)
-        pre = rnd.choice([[], [], ["x=3; arr=[1,2,3]"], ["func g(u){ u+2d6 }", "&val = 2d4"], ["力量 = 60", "&敏捷 = 力量 + d6"], ["m = {'k': 2}", "y = 'str'"]])
+        pre = rnd.choice([[], [], ["x=3; arr=[1,2,3]"], ["func g(u){ u+2d6 }", "&val = 2d4"], ["力量 = 60", "&敏捷 = 力量 + d6"], ["m = {'k': 2}", "y = 'str'"],
+                          ["x = {'a':1,'b':2,'c':3,'d':4}"]])
         if k < 3:
             src = rnd.choice(BROAD).encode()
         elif k < 4:
@@ -321,7 +322,7 @@ def broad_inputs(rnd, n):
     return out
 
 
-SNAP_KEYS = ("hi", "lo", "vars", "ret", "str", "ops", "err")
+SNAP_KEYS = ("hi", "lo", "vars", "ret", "ops", "err")   # `ret`/`vars` are structural dumps with sorted dict keys (Ret.ToString() of a dict follows Go map order)
 
 
 def purity_reason(r):
@@ -364,7 +365,9 @@ def run(res, tier, seed):
 
     fams, found = {}, 0
     stat = {"frag_ok": 0, "frag_err": 0, "frag_full_parse": 0, "frag_empty_text": 0, "frag_with_annotation": 0, "frag_elided": 0,
-            "annotations_checked": 0, "annotation_kinds": {}, "broad_ok": 0, "broad_err": 0, "broad_run_panics": 0, "broad_nonempty_text": 0}
+            "annotations_checked": 0, "annotation_kinds": {}, "broad_ok": 0, "broad_err": 0, "broad_run_panics": 0, "broad_nonempty_text": 0, "broad_map_order_nonidempotent": 0,
+            "broad_rows_with_spans_outside_matched_text": 0}
+    maporder, leftover = [], []
     evals = []
 
     # ---- property-level search: the fragment stream
@@ -407,13 +410,28 @@ def run(res, tier, seed):
         if r.get("panic"):
             stat["broad_run_panics"] += 1
         res.count("b:" + r["srchex"] + "|" + r["hi"], nontrivial=r["d1"] != "")
+        if r["ok"] and any(s["b"] < 0 or s["b"] > s["e"] or s["e"] > r["offset"] for s in r["spans"]):
+            stat["broad_rows_with_spans_outside_matched_text"] += 1
+            leftover.append(r)
         why = purity_reason(r)
         if why and found < 4:
             if "different text" in why and has_dict(r):
-                continue  # Go map order (recorded finding): two renderings of one dict may differ
+                # Go map order (recorded finding KF-C06-map-order): the text is compared with a second rendering of the
+                # same dict, so the first call may return "" and the second the dict text; outside C14's quantifier
+                stat["broad_map_order_nonidempotent"] += 1
+                maporder.append(r)
+                continue
             res.violation(dict(replay_row(r), what="C14 (observing is harmless) fails outside the fragment: " + why))
             found += 1
 
+    for kf in common.known_for("C14"):
+        if kf.get("key") == "leftover-code-of-abandoned-alternative" and leftover:
+            r = leftover[0]
+            res.known(f"{kf['id']}: left-over code leaves detail spans outside the matched text (skipped by makeDetailStr since the repair), "
+                      f"e.g. input {r['src']!r}: offset {r['offset']}, spans {[(x['b'], x['e']) for x in r['spans']]}")
+        if kf.get("key") == "go-map-order-visible-through-dict-iteration" and maporder:
+            r = maporder[0]
+            res.known(f"{kf['id']}: dict-valued text: first GetDetailText {utf(r['d1'])!r}, second {utf(r['d2'])!r} (pre {r.get('pre')}, input {r['src']!r})")
     res.cov["rule"] = ("(a) fragment: generated expressions over integer literals, multi-byte identifiers holding integers, parentheses, + - * (ASCII and "
                        "full-width), unary signs and dice terms of every family (XdY with k/q/kh/kl/dh/dl/min/max, dY, Xd, d with four default-side "
                        "settings, advantage forms, chains d4d6, b/p, f, XaY.., XcY.., sub-rolls as operands) printed with random blanks, tabs, CR/LF "
@@ -445,24 +463,31 @@ def run(res, tier, seed):
     try:
         info = common.check_property_file("C14")
         res.proof(info, "cd coq && make && coqc -Q . DS Properties/C14.v  (Print Assumptions parsed)")
-        crows = [r for r in rows + brows if r["ok"] and not r.get("dpanic") and not has_dict(r)]
-        shard = 400
+        def nbytes(r):
+            return (len(r["srchex"]) + len(r["retstr"]) + len(r["d1"]) + sum(len(x["ret"]) + len(x["text"]) + len(x["expr"]) for x in r["spans"])) // 2
+        allrows = [r for r in rows + brows if r["ok"] and not r.get("dpanic") and not has_dict(r)]
+        crows = [r for r in allrows if nbytes(r) <= 8000]   # very long strings (string doubling) overflow Coq's term parser
+        res.cov["correspondence_skipped_large"] = len(allrows) - len(crows)
+        shard = 300
         ks = list(range(0, len(crows), shard))
         esh = max(1, (len(evals) + len(ks) - 1) // max(1, len(ks)))
         jobs = []
         for j, k in enumerate(ks):
             jobs.append((f"c14_{k}", cases_v(crows[k:k + shard], [(t, v) for t, v, _ in evals[j * esh:(j + 1) * esh]])))
         outs = common.coq_eval_many(jobs)
-        bad, bad2, ties, risks, badev = [], [], [], [], []
+        bad, bad2, ties, risks, badev, risk_bad = [], [], [], [], [], []
         for j, (k, out) in enumerate(zip(ks, outs)):
             rk = set(k + x for x in idx(out, "risks"))
             risks += sorted(rk)
             ties += [k + x for x in idx(out, "ties")]
+            risk_bad += [k + x for x in idx(out, "bad") if k + x in rk]
             bad += [k + x for x in idx(out, "bad") if k + x not in rk]
             bad2 += [k + x for x in idx(out, "bad2") if k + x not in rk]
             badev += [j * esh + x for x in idx(out, "badev")]
         res.cov["correspondence"] = {"cases": len(crows), "disagreements": len(bad), "cache_disagreements": len(bad2),
                                      "groups_with_equal_End": len(ties), "tie_order_implementation_defined": len(risks),
+                                     "tie_order_cases_where_stable_order_differs_from_go": len(risk_bad),
+                                     "tie_order_examples": [crows[i]["src"][:200] for i in risks[:2]],
                                      "coq_strip_eval_cases": len(evals), "coq_strip_eval_disagreements": len(badev)}
         if bad or bad2:
             i0 = (bad or bad2)[0]
